@@ -139,7 +139,11 @@ def correspond(ctx):
                 o = outs[next(it)]
                 e.append(srvproto.canon([] if o in ("ok -", "ok") else o[3:].split(" ")))
             expected.append(e)
-        got = asyncio.run(run_impl(fx, seqs, expected))
+        # how many messages to wait for after each event is decided by the INDEPENDENT 3-state reference, not by the Lean model:
+        # a model that mispredicts (e.g. after a harmless edit the extractor does not understand) must not distort what is
+        # observed of the implementation
+        waits = [[list(o) for o in reference(s + PROBE)] for s in seqs]
+        got = asyncio.run(run_impl(fx, seqs, waits))
         disk_impl = [g.pop()[0] for g in got]
         cases = [" ; ".join(" ".join(map(str, ev)) for ev in s) for s in seqs]
         impl_l = [" | ".join(",".join(o) or "-" for o in g) for g in got]
@@ -163,6 +167,8 @@ def correspond(ctx):
         # direct oracle: the implementation's trace against the reference machine
         for s, g, c in zip(seqs, got, cases):
             ref = reference(s + PROBE)
+            if any(x == ["skipped"] for x in g):
+                continue                    # not executed to the end (enough deviations were already on record)
             if [list(x) for x in g] != ref:
                 if not any(v["signature"] == "trace differs from the 3-state reference machine" for v in res.violations):
                     res.violations.append({"signature": "trace differs from the 3-state reference machine",
